@@ -108,6 +108,13 @@ partial def stmtStr : Stmt → String
   | .varDecl x i => s!"(var {x} {optExprStr i})"
   | .funDecl f => s!"(fun {f})"
 
+/-- the concrete semantics, except that an out-of-domain operation is "not foldable" instead of the poison literal -/
+def concreteStrict : LitSem where
+  binop := fun op a b => match concrete.binop op a b with | some r => if r == ood then none else some r | none => none
+  unop := fun op l => match concrete.unop op l with | some r => if r == ood then none else some r | none => none
+  truthy := concrete.truthy
+  nullish := concrete.nullish
+
 /-- request: `opt <bits> <program s-expression>`; answer: the optimized program -/
 def step (_ : Unit) (toks : List String) : Unit × String :=
   match toks with
@@ -118,7 +125,12 @@ def step (_ : Unit) (toks : List String) : Unit × String :=
       | some prog =>
         let o : Options := { constantFolding := b / 2 % 2 == 1, strengthReduction := b / 4 % 2 == 1, deadCode := b / 8 % 2 == 1 }
         let out := optStmtList concrete o prog
-        ((), "(program" ++ String.join (out.map (fun s => " " ++ stmtStr s)) ++ ")")
+        -- the poison literal of the concrete semantics can be DROPPED by a later rule (comma, logical): run again with a
+        -- semantics in which an out-of-domain operation is not foldable; any difference means the domain was left
+        let out2 := optStmtList concreteStrict o prog
+        let r1 := "(program" ++ String.join (out.map (fun s => " " ++ stmtStr s)) ++ ")"
+        let r2 := "(program" ++ String.join (out2.map (fun s => " " ++ stmtStr s)) ++ ")"
+        ((), if r1 == r2 then r1 else "(OOD)")
       | none => ((), "unsupported")
     | _, _ => ((), "bad-op")
   | _ => ((), "bad-op")
